@@ -7,11 +7,13 @@ import (
 	"fmt"
 	"net"
 	"os"
+	"sync"
 	"time"
 
 	"github.com/lni/dragonboat/v4"
 	"github.com/lni/dragonboat/v4/config"
 	"github.com/lni/dragonboat/v4/logger"
+	sm "github.com/lni/dragonboat/v4/statemachine"
 	drummer "github.com/lni/drummer/v3"
 )
 
@@ -97,4 +99,59 @@ func ReopenHost(dir, addr string, rtt uint64) *Host {
 		time.Sleep(100 * time.Millisecond)
 	}
 	panic(fmt.Sprintf("cannot reopen the NodeHost: %v", last))
+}
+
+// slowDB wraps the Drummer DB: the next `*Delay` updates are held back for that long before they are applied.
+type slowDB struct {
+	sm.IStateMachine
+	hold *SlowControl
+}
+
+// SlowControl holds back updates of a wrapped Drummer DB.
+type SlowControl struct {
+	mu    sync.Mutex
+	left  int
+	delay time.Duration
+}
+
+// HoldNext makes the next n updates wait d before they are applied.
+func (c *SlowControl) HoldNext(n int, d time.Duration) {
+	c.mu.Lock()
+	c.left, c.delay = n, d
+	c.mu.Unlock()
+}
+
+func (s *slowDB) Update(e sm.Entry) (sm.Result, error) {
+	s.hold.mu.Lock()
+	d := time.Duration(0)
+	if s.hold.left > 0 {
+		s.hold.left--
+		d = s.hold.delay
+	}
+	s.hold.mu.Unlock()
+	if d > 0 {
+		time.Sleep(d)
+	}
+	return s.IStateMachine.Update(e)
+}
+
+// NewSlowDrummerDBHost: a Drummer DB whose updates can be held back (a proposal that is applied after its caller gave up).
+func NewSlowDrummerDBHost() (*Host, *SlowControl) {
+	c := &SlowControl{}
+	h := NewHost(2)
+	if err := h.NH.StartReplica(map[uint64]string{1: h.Addr}, false, func(sid, rid uint64) sm.IStateMachine {
+		return &slowDB{drummer.NewDB(sid, rid), c}
+	}, config.Config{ReplicaID: 1, ShardID: 0, ElectionRTT: 10, HeartbeatRTT: 1}); err != nil {
+		panic(err)
+	}
+	for i := 0; i < 2000; i++ {
+		ctx, cancel := context.WithTimeout(context.Background(), time.Second)
+		_, err := h.NH.SyncGetSession(ctx, 0)
+		cancel()
+		if err == nil {
+			return h, c
+		}
+		time.Sleep(5 * time.Millisecond)
+	}
+	panic("drummer DB shard did not become ready")
 }
